@@ -1210,6 +1210,37 @@ impl<'a, 't, 'g> VGen<'a, 't, 'g> {
             });
             scope.push(VarInfo { name: n, kind: VKind::Simple(ElementaryTypeName::BOOL) });
         }
+        if self.t.ratio(1, 4) && self.g.want("CONSTANT_LOCATED_VARIABLE") {
+            // a CONSTANT located variable, with or WITHOUT a name of its own (`AT %IX1.0 : BOOL := TRUE;`):
+            // it needs its initial value like any other constant
+            let anonymous = self.t.flag();
+            let n = self.fresh_local();
+            let ty = ElementaryTypeName::BOOL;
+            let mut init = Some(self.elem_const(&ty));
+            self.cur_class = "prog.located-constant".into();
+            if self.site(FaultKind::ConstNoInit) {
+                init = None;
+                if !anonymous {
+                    self.set_marker(&n);
+                }
+            }
+            vars.push(VarDecl {
+                identifier: VariableIdentifier::Direct(DirectVariableIdentifier {
+                    name: if anonymous { None } else { Some(id(&n)) },
+                    address_assignment: AddressAssignment {
+                        location: LocationPrefix::I,
+                        size: SizePrefix::X,
+                        address: vec![8 + self.t.below(8) as u32, self.t.below(8) as u32],
+                        position: SourceSpan::default(),
+                    },
+                    span: SourceSpan::default(),
+                }),
+                var_type: VariableType::Var,
+                qualifier: DeclarationQualifier::Constant,
+                initializer: simple(ty.into(), init),
+            });
+            self.cur_class = "prog".into();
+        }
         self.externals(&mut scope, &mut vars);
         self.cur_class = "prog.body".into();
         let body = if self.p.sfc && self.t.ratio(1, 6) { self.sfc_body(&scope) } else { FunctionBlockBodyKind::stmts(self.stmts(&scope, None, 0, 1)) };
